@@ -498,7 +498,7 @@ func nsDefaultEnv(text string) J {
 func genNsText(r *rng, n int, tier string, emit func(J)) {
 	// n texts per stream
 	var base []J
-	genNumscript(r.fork(), n, tier, func(j J) { base = append(base, j) })
+	genNumscriptBase(r.fork(), n, tier, func(j J) { base = append(base, j) })
 	carry := func(stream string, text string, b J) J {
 		return J{"stream": stream, "hex": hex.EncodeToString([]byte(text)), "vars": b["vars"], "meta": b["meta"], "bal": b["bal"], "ameta": b["ameta"]}
 	}
